@@ -21,6 +21,8 @@ import z3
 from pyvc import ops
 from pyvc.values import Ext, NoOp, PyRaise, Unsupported, VBound, VClass, VDict, VList, VObj, VSet, stub
 
+from .model_common import new_model
+
 MOD = "pymoca.backends.casadi.model"
 INF = float("inf")
 
@@ -159,6 +161,7 @@ class CasadiStub(Ext):
         if name == "MX":
             cls = VClass("MX")
             cls.constructor = lambda eng, c, a, k: a[0] if isinstance(a[0], MX) else MX("const", a[0])
+            cls.attrs["sym"] = stub(lambda eng, name, *shape: MX(name))
             return cls
         raise Unsupported("casadi.%s" % name)
 
@@ -316,7 +319,7 @@ def h_merge(eng):
         if not handled["a%d" % i]:
             groups["alg_states"].items.append(a)
             eqs.append(EqStub(canon.fields["symbol"], a.fields["symbol"], s_ < 0))
-    selfobj = VObj(eng.module_global(mod, "Model"), dict(groups, alias_relation=rel, equations=VList(eqs), initial_equations=VList([])))
+    selfobj = new_model(eng, dict(groups, alias_relation=rel, equations=VList(eqs), initial_equations=VList([])))
     options = VDict([("detect_aliases", True), ("expand_vectors", False), ("expand_mx", False), ("allow_derivative_aliases", True)])
     try:
         fr = eng.exec_fragment(MOD, "Model._simplify_once", block_selector, {"self": selfobj, "options": options}, label="alias-attribute-merge")
@@ -477,7 +480,7 @@ def h_merge_in_a_later_pass(eng):
         groups["der_states"].items.append(dx)
     groups["alg_states"].items.extend([B, y])
     eqs = [EqStub(x.fields["symbol"], B.fields["symbol"], neg), EqStub(x.fields["symbol"], y.fields["symbol"], False)]
-    selfobj = VObj(eng.module_global(mod, "Model"), dict(groups, alias_relation=rel, equations=VList(eqs), initial_equations=VList([])))
+    selfobj = new_model(eng, dict(groups, alias_relation=rel, equations=VList(eqs), initial_equations=VList([])))
     options = VDict([("detect_aliases", True), ("expand_vectors", False), ("expand_mx", False), ("allow_derivative_aliases", True)])
     try:
         fr = eng.exec_fragment(MOD, "Model._simplify_once", block_selector, {"self": selfobj, "options": options}, label="detect-aliases-block")
